@@ -177,20 +177,20 @@ def _mk_rawput(key):
 FNR = ['fst.fst.FST.put_src', 'fst.fst_raw._reparse_raw', 'fst.fst_raw._reparse_raw_stmtlike', 'fst.fst_raw._reparse_raw_base', 'fst.fst_misc.clip_src_loc',
        'fst.fst.FST.find_contains_loc', 'fst.fst_core._put_src', 'fst.fst_core._offset', 'fst.fst_core._set_ast']
 CELLS = []
-_Q = {('semi', 3), ('uni2', 2), ('semi', 0), ('semi_multi', 5), ('whileelse', 12), ('tryexc', 14), ('whileelse', 16)}
+_Q = {('semi', 3), ('uni2', 2), ('semi_multi', 5), ('whileelse', 12), ('tryexc', 14)}
 for _k in CARRIERS:
     _nl = len(CARRIERS[_k].split('\n'))
     for _ti in range(len(TEXTS)):
         if (_k, _ti) not in _Q and not (TEXTS[_ti] in ('', ' ', '\n', 'if q:', 'pass\n', '# k', 'u = 0\n    ') and _k in ('ifblock', 'elif', 'semi', 'semi_multi', 'tryexc', 'uni', 'uni2', 'match')
                                         or TEXTS[_ti] in ('', '\n') and _k in ('cls', 'with', 'def')):
-            if (_k, _ti) not in (('whileelse', 13), ('elif', 13), ('elif', 12), ('tryexc', 15), ('match', 16), ('def', 15)):
+            if (_k, _ti) not in (('whileelse', 13), ('whileelse', 16), ('elif', 13), ('elif', 12), ('tryexc', 15), ('match', 16), ('def', 15)):
                 continue      # sized out of the thorough tier (all 108 carrier x text pairs were swept concretely at build time: 115,464 rectangles, see DESIGN.md)
         _parts = ['reversed'] + [(a_, b_) for a_ in range(_nl) for b_ in range(a_, _nl)]
         for _p in _parts:
             CELLS.append(Cell(f'P1.put_src[{_k},{TEXTS[_ti]!r},lines={_p if _p == "reversed" else str(_p[0]) + "-" + str(_p[1])}]', _mk_putsrc(_k, _ti, _p), 'P', FNR,
                               f'carrier {_k!r}; replacement text {TEXTS[_ti]!r}; rectangle (ln, col, end_ln, end_col) symbolic over all of Z^4 restricted to those that '
                               + ('are reversed (end before start)' if _p == 'reversed' else f'clip to lines {_p[0]}..{_p[1]}'),
-                              tier='quick' if (_k, _ti) in _Q else 'thorough', budget=900, per_path=60,
+                              tier='quick' if (_k, _ti) in _Q and (_nl <= 5 or _p == 'reversed' or _p[1] - _p[0] <= 1) else 'thorough', budget=900, per_path=60,
                               out="other programs / texts; reparse() with changed parse parameters; 'end' coordinates (C03-K1 covers their clipping)", reset=pc.reset_globals))
 for _k in CARRIERS:
     CELLS.append(Cell(f'P2.raw_replace[{_k}]', _mk_rawput(_k), 'P', FNR + ['fst.fst_put_one._put_one'],
